@@ -1,8 +1,57 @@
+import DeapModel.Core.Hypervolume
 import Driver.Proto
-/-! Protocol handler for C15 (stub until the model is built). -/
+/-!
+Protocol handler for C15 (hypervolume).
+
+  hv    <ref> <pts>              → hvSlice ref pts                       (executable definition)
+  cells <ref> <pts>              → hvCells ref pts                       (specification; small inputs)
+  ie    <ref> <pts>              → hvIE ref pts                          (inclusion–exclusion; small inputs)
+  pop   <weights> <vals> <ref|none>  → populationHV  and the reference point used
+  ind   <weights> <vals> <ref|none>  → leastContributor  and the leave-one-out hypervolumes
+
+`<ref>`, `<weights>`: comma-separated rationals; `<pts>`, `<vals>`: `;`-separated points, `-` = no point.
+Every point must have the length of the reference point / weights, otherwise `bad-op`.
+-/
 namespace DriverC15
+open Proto Hypervolume
+
+def parsePts (d : Nat) (s : String) : Option (List Pt) := do
+  let pts ← parseList2 parseRat s
+  if pts.all (fun p => p.length == d) then some pts else none
+
+def parseRefOpt (d : Nat) (s : String) : Option (Option (List Rat)) :=
+  if s = "none" then some none else do
+    let r ← parseList parseRat s
+    if r.length == d then some (some r) else none
 
 def handle : List String → String
+  | ["hv", rs, ps] =>
+    match (do let r ← parseList parseRat rs; let p ← parsePts r.length ps; pure (r, p)) with
+    | some (r, p) => showRat (hvSlice r p)
+    | none => "bad-op"
+  | ["cells", rs, ps] =>
+    match (do let r ← parseList parseRat rs; let p ← parsePts r.length ps; pure (r, p)) with
+    | some (r, p) => showRat (hvCells r p)
+    | none => "bad-op"
+  | ["ie", rs, ps] =>
+    match (do let r ← parseList parseRat rs; let p ← parsePts r.length ps; pure (r, p)) with
+    | some (r, p) => showRat (hvIE r p)
+    | none => "bad-op"
+  | ["pop", ws, vs, rs] =>
+    match (do let w ← parseList parseRat ws; let v ← parsePts w.length vs
+              let r ← parseRefOpt w.length rs; pure (w, v, r)) with
+    | some (w, v, r) =>
+      if v.isEmpty && r.isNone then "bad-op"          -- numpy.max of an empty array raises
+      else showRat (populationHV w v r) ++ " " ++ showList showRat (r.getD (defaultRef (wobj w v)))
+    | none => "bad-op"
+  | ["ind", ws, vs, rs] =>
+    match (do let w ← parseList parseRat ws; let v ← parsePts w.length vs
+              let r ← parseRefOpt w.length rs; pure (w, v, r)) with
+    | some (w, v, r) =>
+      if v.isEmpty then "bad-op"                      -- numpy.argmax of an empty list raises
+      else toString (leastContributor w v r) ++ " "
+        ++ showList showRat (looValues (r.getD (defaultRef (wobj w v))) (wobj w v))
+    | none => "bad-op"
   | _ => "bad-op"
 
 end DriverC15
